@@ -1,15 +1,28 @@
 // C05 — spatial predicates agree with exact geometry.
 //
-// Engine E1: all (query, feature) pairs of a separation-guaranteed menu
-// (menu.go): areas with several polygons, holes, concave loops (U, L, star,
-// L-shaped and star-shaped holes, shell-hole-shell nesting), paths (crossing
-// without a vertex inside, sharing a vertex, ending in a concavity, inside a
-// hole) and a grid of points, against point / polyline / multipolygon (every
-// order of the parts) / cap (every grid centre x radii) / cell (levels 12..23)
-// / intersecting-feature queries. Every pair is checked for separation with
-// exact S2 distance functions (no point within 1e-9 rad of an edge or cap
-// boundary unless it is exactly a shared vertex); pairs violating it are
-// skipped and counted.
+// Engine E1: all (query, feature) pairs of separation-guaranteed menus, laid
+// out at every place of places.go (S2 cells have a different shape at each: on
+// a face axis, at a face centre, off-axis in every sign combination of the
+// face coordinates, straddling a cube-face edge and a cube-face corner):
+//
+//   - cell-relative scenes (cellmenu.go): for frame cells from level 1 to level
+//     24, the same point / path / area probes at each of the cell's four
+//     corners and four edges (only in the sliver next to a corner, just outside
+//     it, clipping it, along each edge just inside / just outside, across each
+//     edge, through the centre, around the cell), queried with the cell, its
+//     parent, children, neighbours and corner descendants, caps sized by the
+//     distance of each vertex, and point / polyline / multipolygon /
+//     intersecting-feature queries made from the probes themselves;
+//   - the grid scene (menu.go): areas with several polygons, holes, concave
+//     loops (U, L, star, L-shaped and star-shaped holes, shell-hole-shell
+//     nesting), paths (crossing without a vertex inside, sharing a vertex,
+//     ending in a concavity, inside a hole) and a grid of points, against point
+//     / polyline / multipolygon (every order of the parts) / cap (every grid
+//     centre x radii) / cell (levels 3..23) / intersecting-feature queries.
+//
+// Every pair is checked for separation with exact S2 distance functions (no
+// point within 1e-9 rad of an edge or cap boundary unless it is exactly a
+// shared vertex); pairs violating it are skipped and counted.
 //
 // Oracle (oracle.go): independent compositions of S2 primitives; the
 // documented polyline-versus-polygon vertex rule is the only tolerated
@@ -32,13 +45,22 @@ import (
 
 type query struct {
 	family string
+	probe  string // cell-relative scenes: how the query region lies relative to the frame cell
 	name   string
-	q      b6.Query
+	q      b6.Query        // the query under test, or
+	mk     func() b6.Query // its constructor, called on first use (cap coverings and S2 polygons are costly to build, and every worker process builds the whole space)
 	// reference side
 	g      *geom // point / polyline / multipolygon queries
 	cap    *s2.Cap
 	cells  []s2.Cell
 	target *feat // intersecting-feature
+}
+
+func (q *query) b6query() b6.Query {
+	if q.q == nil {
+		q.q = q.mk()
+	}
+	return q.q
 }
 
 func (q *query) expect(f *feat) verdict {
@@ -56,12 +78,23 @@ func (q *query) expect(f *feat) verdict {
 	return geomVs(q.g, f.g)
 }
 
+// cell levels of the grid scenes' cell queries (the cells holding the grid points)
+var sceneCellLevels = []int{3, 7, 10, 12, 15, 17, 19, 21, 23}
+
+// levels of the frame cells of the cell-relative scenes
+var (
+	quickFrameLevels    = []int{1, 2, 3, 5, 8, 11, 14, 17, 20, 23}
+	thoroughFrameLevels = []int{1, 2, 3, 4, 5, 6, 7, 8, 9, 10, 11, 12, 13, 14, 15, 16, 17, 18, 19, 20, 21, 22, 23, 24}
+)
+
 var quickRadii = []float64{0.5, 3, 8, 15, 30, 70, 200}
 var thoroughRadii = []float64{0.5, 1.5, 3, 5, 8, 11, 15, 22, 30, 45, 70, 120, 200, 1000}
 
 func multiPolygonQuery(name string, polys ...[][]s2.Point) *query {
 	g := areaGeom(polys)
-	return &query{family: "multipolygon", name: "multipolygon=" + name, g: g, q: b6.IntersectsMultiPolygon{MultiPolygon: geometry.MultiPolygon(g.s2polygons())}}
+	return &query{family: "multipolygon", name: "multipolygon=" + name, g: g, mk: func() b6.Query {
+		return b6.IntersectsMultiPolygon{MultiPolygon: geometry.MultiPolygon(g.s2polygons())}
+	}}
 }
 
 func permutations(n int) [][]int {
@@ -78,9 +111,9 @@ func permutations(n int) [][]int {
 	return out
 }
 
-func buildQueries(s *scene, tier string) []*query {
+func buildQueries(s *scene, thorough bool) []*query {
 	var out []*query
-	thorough := tier == "thorough"
+	P, ring, rect := s.pl.P, s.pl.ring, s.pl.rect
 
 	// simplest first: points
 	pointQ := func(name string, v xy) {
@@ -165,17 +198,21 @@ func buildQueries(s *scene, tier string) []*query {
 	)
 
 	// cells
-	levels := []int{12, 15, 17, 19, 21, 23}
 	var someCells []s2.Cell
+	seenCell := map[s2.CellID]bool{}
 	for i, v := range s.probes {
 		if !thorough && i%5 != 0 {
 			continue
 		}
-		for _, l := range levels {
+		for _, l := range sceneCellLevels {
 			if !thorough && (i/5+l)%2 == 0 {
 				continue
 			}
 			c := s2.CellFromCellID(s2.CellFromPoint(P(v.x, v.y)).ID().Parent(l))
+			if seenCell[c.ID()] { // coarse cells hold many probes
+				continue
+			}
+			seenCell[c.ID()] = true
 			out = append(out, &query{family: "cells", name: fmt.Sprintf("cell L%d %s @(%.2f,%.2f)", l, c.ID().ToToken(), v.x, v.y), cells: []s2.Cell{c}, q: b6.NewIntersectsCell(c)})
 			if l >= 19 && len(someCells) < 40 && i%7 == 0 {
 				someCells = append(someCells, c)
@@ -199,13 +236,13 @@ func buildQueries(s *scene, tier string) []*query {
 		for _, r := range radii {
 			c := s2.CapFromCenterAngle(P(v.x, v.y), b6.MetersToAngle(r))
 			cc := c
-			out = append(out, &query{family: "cap", name: fmt.Sprintf("cap@(%.2f,%.2f) r=%gm", v.x, v.y, r), cap: &cc, q: b6.NewIntersectsCap(c)})
+			out = append(out, &query{family: "cap", name: fmt.Sprintf("cap@(%.2f,%.2f) r=%gm", v.x, v.y, r), cap: &cc, mk: func() b6.Query { return b6.NewIntersectsCap(cc) }})
 		}
 	}
 	return out
 }
 
-// ---- world (one per process) -------------------------------------------------
+// ---- worlds (one per scene, built on first use) ----------------------------------
 
 type world struct {
 	w     b6.World
@@ -214,34 +251,46 @@ type world struct {
 }
 
 var (
-	wonce sync.Once
-	wv    world
+	wmu    sync.Mutex
+	worlds = map[*scene]*world{}
+	recent []*scene
 )
 
+// getWorld builds the basic world of a scene. Cases are run in increasing
+// order, scene by scene, so only the latest few worlds are kept.
 func getWorld(s *scene) *world {
-	wonce.Do(func() {
-		fs := make([]ingest.Feature, len(s.feats))
-		for i, f := range s.feats {
-			fs[i] = f.ingest()
+	wmu.Lock()
+	defer wmu.Unlock()
+	if w, ok := worlds[s]; ok {
+		return w
+	}
+	wv := &world{}
+	worlds[s] = wv
+	if recent = append(recent, s); len(recent) > 3 {
+		delete(worlds, recent[0])
+		recent = recent[1:]
+	}
+	fs := make([]ingest.Feature, len(s.feats))
+	for i, f := range s.feats {
+		fs[i] = f.ingest()
+	}
+	wv.w, wv.err = ingest.NewWorldFromSource(ingest.MemoryFeatureSource(fs), &ingest.BuildOptions{Cores: 1, FailInvalidFeatures: true})
+	if wv.err != nil {
+		return wv
+	}
+	for _, f := range s.feats {
+		bf := wv.w.FindFeatureByID(f.id)
+		if bf == nil {
+			wv.err = fmt.Errorf("feature %s (%s) missing from the world", f.id, f.name)
+			return wv
 		}
-		wv.w, wv.err = ingest.NewWorldFromSource(ingest.MemoryFeatureSource(fs), &ingest.BuildOptions{Cores: 1, FailInvalidFeatures: true})
-		if wv.err != nil {
-			return
+		if msg := sameGeometry(f, bf); msg != "" {
+			wv.err = fmt.Errorf("feature %s (%s): world geometry differs from the menu: %s", f.id, f.name, msg)
+			return wv
 		}
-		for _, f := range s.feats {
-			bf := wv.w.FindFeatureByID(f.id)
-			if bf == nil {
-				wv.err = fmt.Errorf("feature %s (%s) missing from the world", f.id, f.name)
-				return
-			}
-			if msg := sameGeometry(f, bf); msg != "" {
-				wv.err = fmt.Errorf("feature %s (%s): world geometry differs from the menu: %s", f.id, f.name, msg)
-				return
-			}
-			wv.feats = append(wv.feats, bf)
-		}
-	})
-	return &wv
+		wv.feats = append(wv.feats, bf)
+	}
+	return wv
 }
 
 // sameGeometry: the world must report exactly the geometry the reference model uses.
@@ -352,38 +401,120 @@ func classify(q *query, f *feat, want verdict, got bool) string {
 	if q.target != nil {
 		base += "target-" + qg.kind.String() + ":"
 	}
+	if f.probe != "" {
+		// cell-relative scenes: how the feature lies relative to the frame cell
+		// (how the query region lies is in the query's name)
+		base += "cell-relative:" + probeKind(f.probe) + ":"
+	}
 	return base + fmt.Sprintf("expected-%v-got-%v", want, got)
+}
+
+// probeKind: the probe without its inset, e.g. "path:clips-corner-vertex-in-sliver".
+func probeKind(p string) string {
+	if i := strings.Index(p, "(inset"); i >= 0 {
+		return p[:i]
+	}
+	return p
+}
+
+// ---- the space -----------------------------------------------------------------
+
+type caseRef struct {
+	s *scene
+	q *query
+}
+
+type space struct {
+	cases      []caseRef
+	scenes     []*scene
+	nCell      int // cell-relative scenes
+	nGrid      int // grid scenes
+	fam        map[string]int
+	cellFeats  int
+	homeFeats  int
+	otherFeats int
+}
+
+// buildSpace: for every place (the home place first) the cell-relative scenes,
+// coarse to fine; then the grid scene at every place.
+func buildSpace(tier string) *space {
+	thorough := tier == "thorough"
+	sp := &space{fam: map[string]int{}}
+	add := func(s *scene, qs []*query) {
+		sp.scenes = append(sp.scenes, s)
+		for _, q := range qs {
+			sp.cases = append(sp.cases, caseRef{s, q})
+			sp.fam[q.family]++
+		}
+	}
+	levels := quickFrameLevels
+	if thorough {
+		levels = thoroughFrameLevels
+	}
+	pls := places()
+	for _, pl := range pls {
+		leaf := s2.CellFromPoint(pl.anchor()).ID()
+		for _, l := range levels {
+			s := buildCellScene(pl, leaf.Parent(l))
+			add(s, cellSceneQueries(s))
+			sp.nCell++
+			sp.cellFeats = len(s.feats)
+		}
+	}
+	for i, pl := range pls {
+		// the home place has the dense grid; the other places the next coarser one
+		step, full := 2, false
+		switch {
+		case thorough && i == 0:
+			step, full = 1, true
+		case !thorough && i > 0:
+			step = 4
+		}
+		s := buildScene(pl, step)
+		add(s, buildQueries(s, full))
+		sp.nGrid++
+		if i == 0 {
+			sp.homeFeats = len(s.feats)
+		} else {
+			sp.otherFeats = len(s.feats)
+		}
+	}
+	return sp
 }
 
 func main() {
 	kit.Main(&kit.Check{
 		ID: "C05", Level: "exploration",
-		Rule: "every query of the menu (checks/c05/main.go buildQueries) against every feature of the scene (checks/c05/menu.go) in a basic world; one case = one query, Evals = features, Distinct = pairs that pass the separation check (exact S2 distances: no vertex within 1e-9 rad of an edge of the other geometry unless it is exactly a shared vertex, no distance within 1e-9 rad of a cap radius); non-trivial = at least one pair compared. Oracle: q.Matches(f, w) == reference verdict (oracle.go); where a path passes through a polygon without a vertex inside, both answers are accepted (documented approximation). FindFeatures(q) is compared with the same verdicts for the pairs on which Matches agreed.",
+		Rule: "scenes x queries, one case = one query against every feature of its scene in a basic world (one world per scene). Two kinds of scene, each laid out at every PLACE of checks/c05/places.go (S2 cells are shaped differently there: on a face axis, at a face centre, off-axis in each sign combination of the face coordinates (u,v), straddling a cube-face edge, straddling a cube-face corner): " +
+			"(1) cell-relative scenes (checks/c05/cellmenu.go): for the cell of each stated level that contains the place's anchor, the same probes at EACH of its four corners and four edges, positioned by bilinear weights of the cell's own four vertices: points / paths / areas (triangles, bands, 20-gons, two-polygon areas) only in the sliver next to a corner (insets 1/32 and 1/6 of the cell), just outside it diagonally and across either adjacent edge, paths clipping the corner with and without a vertex inside, strips and paths along each edge just inside / just outside / overhanging both corners, across each edge's midpoint, edge to opposite edge and corner to opposite corner through the centre, areas containing the cell, with the cell in a hole, with a hole inside the cell; queried with cells (the cell, parent, children, edge and vertex neighbours, descendants in each corner sliver, lists), caps (at the centre reaching 0.9x / 1.1x the distance of EACH vertex, at each vertex, outside each edge's midpoint), a point query per probe point, a polyline query per probe path, a multipolygon query per probe area and for the cell's own loop, and intersecting-feature queries; " +
+			"(2) the grid scene (checks/c05/menu.go) with the query menu of main.go buildQueries. " +
+			"Evals = features, Distinct = pairs that pass the separation check (exact S2 distances: no vertex within 1e-9 rad of an edge of the other geometry unless it is exactly a shared vertex, no distance within 1e-9 rad of a cap radius); non-trivial = at least one pair compared. Order: cell-relative scenes place by place (home first), coarse to fine, then the grid scenes; within a scene points, features, polylines, multipolygons, cells, caps. Oracle: q.Matches(f, w) == reference verdict (oracle.go: point-in-loop, exact crossings and distances against the cell's four geodesic edges, cell-ID containment; nothing assumes a cell shape); where a path passes through a polygon without a vertex inside, both answers are accepted (documented approximation). FindFeatures(q) is compared with the same verdicts for the pairs on which Matches agreed.",
 		Assumptions: []string{
-			"the world reports exactly the menu geometry (checked at start-up, vertex by vertex)",
+			"the world reports exactly the menu geometry (checked when each world is built, vertex by vertex)",
 			"S2 primitives Loop.ContainsPoint, DistanceFromSegment, CrossingSign and CellID containment are exact beyond the 1e-9 rad separation",
 			"a point meets a path only at a vertex with identical coordinates (every other point of the menu is farther than 1e-9 rad from every path edge)",
 		},
-		QuickDeadline: 200e9, ThoroughDeadline: 1500e9, CaseTimeout: 300e9, JournalEvery: 16,
+		QuickDeadline: 300e9, ThoroughDeadline: 2400e9, CaseTimeout: 300e9, JournalEvery: 16,
 		Build: func(tier string) (kit.Space, string) {
-			s := buildScene(tier)
-			qs := buildQueries(s, tier)
-			fam := map[string]int{}
-			for _, q := range qs {
-				fam[q.family]++
-			}
+			sp := buildSpace(tier)
 			var fl []string
-			for k, v := range fam {
+			for k, v := range sp.fam {
 				fl = append(fl, fmt.Sprintf("%s:%d", k, v))
 			}
 			sort.Strings(fl)
-			radii := quickRadii
+			levels, radii, otherRadii := quickFrameLevels, quickRadii, quickRadii
+			homeGrid, otherGrid := "2", "4"
 			if tier == "thorough" {
-				radii = thoroughRadii
+				levels, radii = thoroughFrameLevels, thoroughRadii
+				homeGrid, otherGrid = "1", "2"
 			}
-			bound := fmt.Sprintf("%d features (9 areas, 11 paths, %d points) x %d queries (%s); cap radii %v m; cell levels 12,15,17,19,21,23; separation 1e-9 rad",
-				len(s.feats), len(s.feats)-20, len(qs), strings.Join(fl, " "), radii)
-			return kit.FuncSpace{N: int64(len(qs)), F: func(i int64) kit.Result { return runCase(s, qs[i], i) }}, bound
+			var pn []string
+			for _, pl := range places() {
+				pn = append(pn, pl.name)
+			}
+			bound := fmt.Sprintf("%d places {%s}; per place: cell-relative scenes for frame cells of levels %v (%d scenes of %d features: probes at each of 4 corners x insets {1/32, 1/6} and 4 edges x inset 1/32) + the grid scene (9 areas, 11 paths, point grid of spacing %s units = %d features at the home place with cap radii %v m; spacing %s units = %d features elsewhere with cap radii %v m; cell levels %v); %d queries in all (%s); separation 1e-9 rad",
+				len(pn), strings.Join(pn, "; "), levels, sp.nCell, sp.cellFeats, homeGrid, sp.homeFeats, radii, otherGrid, sp.otherFeats, otherRadii, sceneCellLevels, len(sp.cases), strings.Join(fl, " "))
+			return kit.FuncSpace{N: int64(len(sp.cases)), F: func(i int64) kit.Result { return runCase(sp.cases[i].s, sp.cases[i].q, i) }}, bound
 		},
 	})
 }
@@ -392,21 +523,26 @@ func runCase(s *scene, q *query, idx int64) kit.Result {
 	var r kit.Result
 	w := getWorld(s)
 	if w.err != nil {
-		r.Violate("harness:world", "%v", w.err)
+		r.Violate("harness:world", "%s: %v", s.name, w.err)
 		return r
 	}
 	r.Evals = int64(len(s.feats))
 	if idx%509 == 0 {
-		r.Sample = map[string]interface{}{"query": q.name, "features": len(s.feats)}
+		r.Sample = map[string]interface{}{"scene": s.name, "query": q.name, "features": len(s.feats)}
 	}
+	pre := ""
+	if s.frame != nil {
+		pre = "cell-relative:"
+	}
+	bq := q.b6query()
 	viol := map[string][]string{}
 	want := make([]verdict, len(s.feats))
 	agreed := map[b6.FeatureID]verdict{}
 	for i, f := range s.feats {
 		v := q.expect(f)
 		want[i] = v
-		got := q.q.Matches(w.feats[i], w.w)
-		r.AddOutcome(fmt.Sprintf("%s-vs-%s:%s", q.family, f.g.kind, v))
+		got := bq.Matches(w.feats[i], w.w)
+		r.AddOutcome(fmt.Sprintf("%s%s-vs-%s:%s", pre, q.family, f.g.kind, v))
 		switch v {
 		case vSkip:
 			r.Count("pairs-skipped:separation<1e-9", 1)
@@ -426,9 +562,15 @@ func runCase(s *scene, q *query, idx int64) kit.Result {
 		}
 	}
 	r.Nontrivial = r.Distinct > 0
+	r.Count("pairs-compared@"+s.pl.name, r.Distinct)
+	if s.frame != nil {
+		r.Count(fmt.Sprintf("pairs-compared:cell-relative:frame-level-%02d", s.frame.level), r.Distinct)
+	} else {
+		r.Count("pairs-compared:grid-scene", r.Distinct)
+	}
 	// FindFeatures against the same verdicts
 	found := map[b6.FeatureID]int{}
-	it := w.w.FindFeatures(q.q)
+	it := w.w.FindFeatures(bq)
 	n := 0
 	for it.Next() {
 		found[it.FeatureID()]++
@@ -443,7 +585,11 @@ func runCase(s *scene, q *query, idx int64) kit.Result {
 		}
 		c := found[f.id]
 		if c > 1 || (c == 1) != (v == vTrue) {
-			cl := "find:" + q.family + "-vs-" + f.g.kind.String() + fmt.Sprintf(":expected-%v-returned-%d-times", v, c)
+			cl := "find:" + q.family + "-vs-" + f.g.kind.String()
+			if s.frame != nil {
+				cl += ":cell-relative:" + probeKind(f.probe)
+			}
+			cl += fmt.Sprintf(":expected-%v-returned-%d-times", v, c)
 			viol[cl] = append(viol[cl], fmt.Sprintf("%s (%s): FindFeatures returned it %d times, Matches and exact geometry say %v", f.id, f.name, c, v))
 		}
 	}
@@ -452,12 +598,16 @@ func runCase(s *scene, q *query, idx int64) kit.Result {
 		cls = append(cls, cl)
 	}
 	sort.Strings(cls)
+	where := s.name
+	if s.frame != nil {
+		where += "; " + s.frame.describe()
+	}
 	for _, cl := range cls {
 		l := viol[cl]
 		if len(l) > 6 {
 			l = append(l[:6], fmt.Sprintf("... and %d more", len(l)-6))
 		}
-		r.Violate(cl, "query %s\n%s", q.name, strings.Join(l, "\n"))
+		r.Violate(cl, "%s\nquery %s\n%s", where, q.name, strings.Join(l, "\n"))
 	}
 	return r
 }
